@@ -68,7 +68,7 @@ def run_case(kind, grid, li, quad, extra, pair, drv):
             d = dsm_impl.run_stock("inflow", grid, lt, quad, extra, shapes, dsm_impl.driver_series("pos", n, extra))["stock"]
         else:
             d = dsm_impl.driver_series(drv, n, extra)
-        return dsm_impl.run_stock(kind, grid, lt, quad, extra, shapes, d, recompute=(drv in RECOMPUTE_DRIVERS))
+        return dsm_impl.run_stock(kind, grid, lt, quad, extra, shapes, d, recompute=(drv in RECOMPUTE_DRIVERS), int_dtype=drv.endswith("#int"))
 
     st, res = attempt(compute)
     if st == "raised":
